@@ -182,7 +182,9 @@ def _residue_run(arg):
 
 def residue_family(chk, tier, seed):
     rng = random.Random(seed + 99)
-    modes = (1, 4) if tier == "quick" else (1, 4, 2)
+    # 1 zeros, 4 what the previous datagram left, 2 0xA5, "5 <hex>" a repeated pattern of small numbers that a decoder
+    # reading past the end would take for a valid preference / length / pointer
+    modes = (1, 4, "5 000a") if tier == "quick" else (1, 4, 2, "5 000a", "5 0014", "5 0100", "5 c00c")
     sp = []
     k = 0
     steps = [("login", 0), ("fragprobe", 1), ("fragprobe", 4), ("ping", 1), ("ping", 3), ("data", 0), ("data", 1),
@@ -196,7 +198,10 @@ def residue_family(chk, tier, seed):
                     de = None
                 sp.append({"seed": seed * 100000 + 50000 + k, "sess": {"qtype": qt, "downenc": de, "lazy": rng.choice([0, 1])},
                            "pkts": PKTS, "dur_ms": 5000, "hs_limit_ms": 200000,
-                           "plan": [{"kind": kind, "k": ord_, "n": 6, "mode": "prepend", "what": "trunc"}],
+                           # cut-down variants as the FIRST reply to several successive queries of this kind (a reply with
+                           # a stale id is decoded too, but only a matching one shows what the decoder made of it)
+                           "plan": [{"kind": kind, "k": ord_ + j, "n": 2, "mode": "prepend", "what": "trunc"}
+                                    for j in range(4)],
                            "label": "cres/%s/%s%d/%d" % (qt, kind, ord_, rep)})
                 k += 1
     results = vcheck.parallel(_residue_run, [(s, modes) for s in sp])
